@@ -334,7 +334,23 @@ pub fn check_remesh(pre: &State, post: &State, op: &Op, res: &Result<Res, String
             out.push(fnd("C15", "collapse-removed-darts-not-flagged", format!("{op:?}: {du} darts newly flagged as removed, expected {expect_unused_delta}")));
         }
     } else {
-        if let Some(f) = compare_tri_sets("C15", if kind == 0 { "swap-wrong-mesh" } else { "cut-wrong-mesh" }, op, &got, &want) {
+        if let Some(mut f) = compare_tri_sets("C15", if kind == 0 { "swap-wrong-mesh" } else { "cut-wrong-mesh" }, op, &got, &want) {
+            if kind == 0 {
+                // narrower class for the recorded defect of swap_edge: the result is a sound
+                // triangle mesh with the right counts in which exactly two vertices moved
+                let (v_pre, v_post) = (vertex_coord_set(pre), vertex_coord_set(post));
+                let (gone, new_) = (v_pre.difference(&v_post).count(), v_post.difference(&v_pre).count());
+                // (geometric adjacency is not consulted: with displaced vertices two sides can
+                // coincide geometrically)
+                let sound = mvp.n_vertices == ctx.mv.n_vertices
+                    && mvp.n_edges == ctx.mv.n_edges
+                    && mvp.faces.len() == ctx.mv.faces.len();
+                if sound && gone == 2 && new_ == 2 {
+                    f.class = "swap-moves-end-points".into();
+                } else {
+                    f.msg = format!("{} [vertices gone {gone}, new {new_}, adjacency {:?}, counts V {}->{} E {}->{} F {}->{}]", f.msg, adjacency_mismatch(post, &mvp), ctx.mv.n_vertices, mvp.n_vertices, ctx.mv.n_edges, mvp.n_edges, ctx.mv.faces.len(), mvp.faces.len());
+                }
+            }
             out.push(f);
             return out;
         }
